@@ -64,6 +64,9 @@ type c02Scenario struct {
 	Docs     []c02Doc `json:"docs"`      // stored documents (file backend: all assigned vBuckets or none)
 	HighOver []string `json:"high_over"` // per assigned vBucket: high seqno = stored seq + this (decimal)
 	Failover []int    `json:"failover"`  // per assigned vBucket: number of failover entries (1..3)
+	// per assigned vBucket (cyclic): the collection-aware sequence-number query answers this percentage of the vBucket's
+	// high seqno (other collections / system events were written after the configured collections' last item); 100 = same
+	CollPct []int `json:"coll_pct,omitempty"`
 }
 
 func c02DocOf(t ckTuple, uuid string) *models.CheckpointDocument {
@@ -103,6 +106,14 @@ func c02ExecOpen(sc c02Scenario) (detail string) {
 		}
 		high[vb] = h
 		cl.setHigh(vb, h)
+		if len(sc.CollPct) > 0 {
+			if pct := uint64(sc.CollPct[i%len(sc.CollPct)]); pct < 100 {
+				if cl.collHigh == nil {
+					cl.collHigh = map[uint16]uint64{}
+				}
+				cl.collHigh[vb] = h/100*pct + h%100*pct/100
+			}
+		}
 		k := sc.Failover[i%len(sc.Failover)]
 		var fl []gocbcore.FailoverEntry
 		for j := 0; j < k; j++ {
@@ -261,6 +272,9 @@ func TestC02_Open(t *testing.T) {
 		}
 		sc.HighOver = rapid.SliceOfN(rapid.Map(rapid.OneOf(rapid.Uint64Range(0, 3), genU64()), func(u uint64) string { return fmt.Sprint(u) }), 1, 8).Draw(rt, "over")
 		sc.Failover = rapid.SliceOfN(rapid.IntRange(1, 3), 1, 8).Draw(rt, "failover")
+		if rapid.Bool().Draw(rt, "colls") {
+			sc.CollPct = rapid.SliceOfN(rapid.SampledFrom([]int{100, 0, 50, 99, 10}), 1, 4).Draw(rt, "collpct")
+		}
 		journal("C02", "c02open", sc)
 		d := c02ExecOpen(sc)
 		journalDone()
@@ -284,6 +298,12 @@ func TestC02_Open(t *testing.T) {
 		}
 		if inRange == 0 && sc.Reset == "latest" {
 			labels = append(labels, "latest_reset_applies")
+		}
+		for _, p := range sc.CollPct {
+			if p < 100 {
+				labels = append(labels, "collection_seqnos_differ")
+				break
+			}
 		}
 		record("C02", sc, big && inRange > 0 && inRange < n, labels...)
 	})
